@@ -337,6 +337,41 @@ def part_table(p):
     return st
 
 
+@guarded('C08')
+def run_usurped(code, minor, name):
+    """an ISO code declared directly with data that differ from the table,
+    then registered: either rejected, or the table's data"""
+    Money = money()
+    functional, _ = O.iso_table()
+    ent = functional[code]
+    kw = {} if minor is None else {'minor_unit': minor}
+    Money.new_unit(code, name, **kw)
+    try:
+        c = Money.register_currency(code)
+    except ValueError:
+        return []
+    (tminor,) = ent['minor']
+    if c.name not in ent['names'] or \
+            O.fr(c.smallest_fraction) != F(1, 10 ** tminor):
+        return [('C08:iso:usurped-symbol',
+                 f"Money.new_unit({code!r}, {name!r}, {minor}) followed by "
+                 f"register_currency({code!r}) returned name {c.name!r}, "
+                 f"smallest fraction {c.smallest_fraction!r}; the table says "
+                 f"{ent['names']} and 10**-{tminor}")]
+    return []
+
+
+def part_usurped(p):
+    st = Stats()
+    st.paths += 1
+    st.transitions += 2
+    st.evaluations += 2
+    st.state(('usurped',) + tuple(p), nontrivial=True)
+    for sig, msg in run_usurped(*p):
+        st.violation(sig, msg, {'usurped': list(p)})
+    return st
+
+
 def part_misc(_):
     st = Stats()
     functional, other = O.iso_table()
@@ -365,6 +400,8 @@ def part_misc(_):
 
 
 def replay(case):
+    if 'usurped' in case:
+        return run_usurped(*case['usurped'])
     Money = money()
     if 'iso' in case:
         return run_table_entry(case['iso'],
@@ -389,6 +426,13 @@ def run(tier, seed):
     total.merge(pmap(part_table, [(codes[i::8], m) for i in range(8)
                                   for m in O.MODES], fresh=True))
     total.merge(pmap(part_misc, [0], fresh=True))
+    total.merge(pmap(part_usurped, [('KWD', 2, 'Kuwait Dollar'),
+                                    ('JPY', 2, 'my yen'),
+                                    ('EUR', 2, 'Euro'),
+                                    ('EUR', 2, 'euro (mine)'),
+                                    ('TND', None, 'Tunisian Dinar'),
+                                    ('CLF', 4, 'Unidad de Fomento')],
+                     fresh=True))
     if tier == 'thorough':
         sub = codes
     else:
